@@ -25,6 +25,7 @@ EXTENDS Naturals, Sequences, FiniteSets, TLC, Json
 
 CONSTANTS MaxSteps,
           Focus        \* "all": every scenario | "damage": only scenarios in which the environment replaces the auto-correct file
+                       \* | "repair": only scenarios in which the directory appears under the live context and a learning commit follows
 
 FileStates == {"absent", "valid", "empty", "torn", "wrongshape", "emptyentries"}
 DirStates  == {"ok", "missing", "blocked"}
@@ -83,7 +84,7 @@ Damage == /\ Focus = "damage" /\ alive /\ dir = "ok" /\ ~Damaged
 \* (the front-end's installer creates it, a mount comes back) - at most once per scenario.  From then on saves complete
 \* again: "a failed save loses at most that one learned choice", not the ones learned afterwards.
 Repaired == \E i \in 1..Len(hist) : hist[i].op = "repair"
-Repair == /\ Focus = "all" /\ alive /\ dir # "ok" /\ ~Repaired
+Repair == /\ Focus \in {"all", "repair"} /\ alive /\ dir # "ok" /\ ~Repaired
           /\ dir' = "ok"
           /\ UNCHANGED <<sel, ac, alive, mem, acmem, disk, crashed>> /\ Log("repair")
 
@@ -98,6 +99,7 @@ ReloadAsNew == (alive /\ hist[Len(hist)].op = "update") => acmem = Readable(ac)
 \* a completed save leaves a loadable file
 SaveLeavesValid == (hist[Len(hist)].op = "commit" /\ dir = "ok") => (sel = "valid" /\ disk = mem)
 
-Emit == (Len(hist) = MaxSteps + 1 /\ (Focus = "damage" => Damaged /\ hist[Len(hist)].op \in {"update", "type"})) =>
+Emit == (Len(hist) = MaxSteps + 1 /\ (Focus = "damage" => Damaged /\ hist[Len(hist)].op \in {"update", "type"})
+                                    /\ (Focus = "repair" => Repaired /\ hist[Len(hist)].op = "commit")) =>
             PrintT(<<"REPLAY", ToJson([mc |-> "MC_Fault", focus |-> Focus, steps |-> hist])>>)
 =============================================================================
